@@ -89,7 +89,8 @@ pub fn run(ctx: &mut Ctx) {
             for (step, &oi) in seq.iter().enumerate() {
                 let e = &offers[oi];
                 let ev = E::of(e);
-                let local = rng.chance(1, 3);
+                // (a clock override of 0 means 'real clock', so epoch entries go through the remote path)
+                let local = rng.chance(1, 3) && e.timestamp() != 0;
                 let before = model.clone();
                 let expected = model.offer(e);
                 let got = if local {
